@@ -33,9 +33,16 @@ META = dict(
                "(17 lines, existing tests green) and the theorems are about the repaired function, so this check "
                "reports a VIOLATION on an unrepaired tree (the repair is commit 9931d3b0). The interpreter model "
                "OPM.Model.Interp uses the repaired check (OPM.Model.MacroCascade), so the M3 stream also runs recursive "
-               "methods (16 shapes + generated redefinitions). NOT proved: the third sentence "
-               "(a started macro may not be edited or removed) is MethodManager._validate_liveedit_method (merge model); "
-               "it is checked by the engine oracle only. After an accepted live edit the method manager keeps a "
+               "methods (16 shapes + generated redefinitions). The bridge from the check to the instruction is proved (recursive_call_fails: "
+               "the call node fails, no frame, no bodyStart, nothing else touched). 'Once per call' is FALSE for "
+               "overlapping calls (C41_once_full refuted by C41_once_counterexample: a call arriving while an invocation of "
+               "the same macro is in progress joins it; reproduced on the engine, recorded finding "
+               "macro-body-shared-by-overlapping-calls); proved for calls that arrive while no invocation is in progress "
+               "(C41_once_partial). The third sentence is proved on the merge model (started_macro_edit_is_rejected: "
+               "removal, change of instruction type or any difference found by matches_source => rejected, state "
+               "unchanged) while the method manager looks at the running program; the oracle generates edits of every "
+               "field (text, threshold, indentation, order, insert/delete, header) of started macros and judges "
+               "'started' from the Mark trace. After an accepted live edit the method manager keeps a "
                "state-less program, so a later edit of a started macro is accepted (recorded finding, root cause in the "
                "C01 cluster). Trusted: Lean kernel, harness, parser (programs are what the real parser builds).",
     technique="Lean 4 proof (DFS soundness/completeness/termination, step theorems) + differential correspondence "
@@ -46,7 +53,9 @@ REQUIRED = ["OPM.C41.definition_registers_latest", "OPM.C41.call_runs_latest_def
             "OPM.C41.call_of_undefined_macro_fails", "OPM.C41.fresh_invocation_resets_body",
             "OPM.C41.call_return_counts", "OPM.C41.recursion_check_exact", "OPM.C41.recursion_check_total",
             "OPM.C41.asIs_misses_call_after_other_call", "OPM.C41.asIs_misses_call_inside_watch",
-            "OPM.C41.asIs_diverges_on_foreign_cycle"]
+            "OPM.C41.asIs_diverges_on_foreign_cycle", "OPM.C41.recursive_call_fails",
+            "OPM.C41.nonrecursive_call_starts_body", "OPM.C41.C41_once_counterexample", "OPM.C41.C41_once_partial",
+            "OPM.C41.started_macro_edit_is_rejected", "OPM.C41.matchesSrc_compares_every_line"]
 
 # ---------------------------------------------------------------------------------------------
 # function-level stream: MacroNode.macro_calling_macro vs OPM.MacroCheck.cascade
@@ -199,13 +208,22 @@ def oracle_expand(case: dict) -> Failure | None:
     exp = expand(items)
     run = EngineRun(pcode_of(items))
     try:
-        snap = None
-        for _ in range(_budget(items)):
+        # no assumption on how many ticks an instruction takes: run until the expected trace is there (plus a
+        # grace period in which nothing more may appear), an error stops the run, or a very generous cap
+        snap, grace, cap = None, 0, 4 * _budget(items) + 400
+        for _ in range(cap):
             snap = run.tick()
             if snap["tags"].get("Method Status") == "Error":
                 break
+            if exp["stop"] is None and len(_marks(snap)) >= len(exp["marks"]):
+                grace += 1
+                if grace > 40:
+                    break
         got = _marks(snap)
         status = snap["tags"].get("Method Status")
+        if got != exp["marks"] and got == exp["marks"][:len(got)] and status != "Error":
+            return Failure("macro-method-does-not-finish", case,
+                           f"after {cap} ticks the Mark trace {got} is still a strict prefix of the expansion {exp['marks']}")
         if got != exp["marks"]:
             k = "macro-trace-differs-from-expansion"
             return Failure(k, case, f"Mark trace {got} but inline expansion with the latest definitions gives "
@@ -247,14 +265,8 @@ def oracle_recursive(case: dict) -> Failure | None:
         run.close()
 
 
-EDIT_ITEMS = [
-    [("macro", "A", [("mark", "a1"), ("wait", "1s"), ("mark", "a2")]), ("mark", "s"), ("call", "A"), ("mark", "e"),
-     ("call", "A")],
-    [("macro", "B", [("mark", "b1")]), ("macro", "A", [("mark", "a1"), ("call", "B"), ("wait", "0.5s"), ("mark", "a2")]),
-     ("call", "A"), ("wait", "0.5s"), ("mark", "e")],
-    [("mark", "s"), ("macro", "A", [("cmd", "CmdB"), ("mark", "a1"), ("wait", "0.5s"), ("mark", "a2"), ("mark", "a3")]),
-     ("call", "A"), ("call", "A")],
-]
+EDIT0 = [("macro", "A", [("mark", "a1"), ("wait", "1s"), ("mark", "a2")]), ("mark", "s"), ("call", "A"), ("mark", "e"),
+         ("call", "A")]
 
 
 def _method(lines: list[tuple[str, str]]):
@@ -262,81 +274,251 @@ def _method(lines: list[tuple[str, str]]):
     return Mdl.Method(lines=[Mdl.MethodLine(id=i, content=c) for i, c in lines], version=0)
 
 
-def _edit_variants(pcode: str, macro: str) -> list[tuple[str, list[tuple[str, str]]]]:
-    """Edits of the macro `macro` (ids = those of Method.from_pcode: id_<line number>)."""
-    lines = [(f"id_{k + 1}", c) for k, c in enumerate(pcode.split("\n"))]
-    h = next(k for k, (_, c) in enumerate(lines) if c.strip() == f"Macro: {macro}")
+def gen_edit_method(rng) -> list:
+    """A method with one or two macros (bodies with Marks, Waits, commands, a nested Watch or Block with
+    lines of its own) that are called from the main flow with Waits around, so that edits can arrive while
+    a macro is in the middle of its body, after it completed, before a second call …"""
+    mark_no = [0]
+
+    def mk(prefix="m"):
+        mark_no[0] += 1
+        return ("mark", f"{prefix}{mark_no[0]}")
+
+    def body(name):
+        b = [mk(name.lower())]
+        for _ in range(rng.randrange(1, 4)):
+            x = rng.random()
+            if x < 0.35:
+                b.append(("wait", rng.choice(["0.5s", "1s", "1.5s"])))
+            elif x < 0.55:
+                b.append(("cmd", rng.choice(["CmdA", "CmdB"])))
+            elif x < 0.75:
+                k = rng.choice(["watch", "block"])
+                inner = [mk(name.lower()), ("wait", "0.5s")] + ([("endblock",)] if k == "block" else [])
+                b.append(("block", "K", inner) if k == "block" else ("watch", "T0 >= 0", inner))
+            else:
+                b.append(mk(name.lower()))
+        b.append(mk(name.lower()))
+        return b
+    names = ["A"] if rng.random() < 0.5 else ["A", "B"]
+    items = [("macro", nm, body(nm)) for nm in names]
+    items.append(mk("s"))
+    for _ in range(rng.randrange(1, 4)):
+        items.append(("call", rng.choice(names)))
+        items.append(rng.choice([("wait", "0.5s"), mk("s"), ("cmd", "CmdA")]))
+    items.append(mk("e"))
+    return items
+
+
+def macro_region(lines: list[str], name: str) -> tuple[int, list[int]]:
+    """(header line, body lines) of the definition of macro `name` in the text (by indentation)"""
+    h = next(k for k, c in enumerate(lines) if c.strip() == f"Macro: {name}")
+    ind = len(lines[h]) - len(lines[h].lstrip(" "))
     body = []
     k = h + 1
-    while k < len(lines) and lines[k][1].startswith("    "):
+    while k < len(lines) and (not lines[k].strip() or len(lines[k]) - len(lines[k].lstrip(" ")) > ind):
         body.append(k)
         k += 1
-    out = []
-    last = body[-1]
-    out.append(("change-last-body-line", [(i, c + "x") if j == last else (i, c) for j, (i, c) in enumerate(lines)]))
-    out.append(("change-first-body-line", [(i, "    Mark: zz") if j == body[0] else (i, c) for j, (i, c) in enumerate(lines)]))
-    out.append(("remove-macro", [x for j, x in enumerate(lines) if j != h and j not in body]))
-    out.append(("remove-last-body-line", [x for j, x in enumerate(lines) if j != last]))
-    out.append(("append-body-line", lines[:last + 1] + [("id_new", "    Mark: added")] + lines[last + 1:]))
-    out.append(("macro-becomes-block", [(i, c.replace("Macro:", "Block:")) if j == h else (i, c)
-                                        for j, (i, c) in enumerate(lines)]))
-    return out
+    return h, body
 
 
-def _obs(snap) -> tuple:
-    return (snap["tags"].get("Mark"), snap["tags"].get("Method Status"), snap["tags"].get("System State"),
-            tuple((n["line"], n["started"], n["completed"], n["failed"]) for n in snap["nodes"]))
+def _ind(t: str) -> int:
+    return len(t) - len(t.lstrip(" "))
+
+
+def gen_macro_edit(rng, pcode: str, name: str):
+    """One edit of the definition of macro `name`: (kind, new method lines with ids) or None.  Ids are those of
+    Method.from_pcode (id_<n>) for surviving lines, fresh ids for inserted ones.  Every kind changes the
+    macro's significant source: text, threshold, indentation, order, number of lines, the header."""
+    import re
+    lines = pcode.split("\n")
+    idl = [(f"id_{k + 1}", c) for k, c in enumerate(lines)]
+    h, body = macro_region(lines, name)
+    sig = [k for k in body if lines[k].strip() and not lines[k].strip().startswith("#")]
+    flat = [k for k in sig if _ind(lines[k]) == 4 and not lines[k].strip().startswith(("Watch", "Block"))]
+    kind = rng.choice(["text", "threshold", "threshold", "dedent-last", "indent-next", "swap", "delete-line",
+                       "insert-line", "remove-macro", "rename-header", "header-to-block", "nested-text"])
+
+    def repl(k, c):
+        return [(i, c) if j == k else (i, x) for j, (i, x) in enumerate(idl)]
+    if kind in ("text", "nested-text"):
+        deep = [k for k in sig if _ind(lines[k]) >= 8]
+        k = rng.choice(deep) if kind == "nested-text" and deep else rng.choice(sig)
+        c = lines[k]
+        if "Mark:" in c:
+            c = c + "x"
+        elif "Wait:" in c:
+            c = re.sub(r"Wait: [0-9.]+s", "Wait: 2.25s", c)
+        elif c.strip() in ("CmdA", "CmdB"):
+            c = c.replace("CmdA", "CmdX").replace("CmdB", "CmdA").replace("CmdX", "CmdB")
+        elif "End block" in c:
+            c = c.replace("End block", "End blocks")
+        elif ">= 0" in c:
+            c = c.replace(">= 0", ">= 1")
+        else:
+            c = c.replace("Block: K", "Block: K2")
+        if c == lines[k]:
+            return None
+        if lines[k].strip() in ("CmdA", "CmdB"):
+            kind = "command-name"             # only the instruction name changes (same class, same arguments)
+        return kind, repl(k, c)
+    if kind == "threshold":
+        k = rng.choice(sig[1:] or sig)          # later lines: more likely not started yet when the edit arrives
+        c = lines[k]
+        m = re.match(r"^( *)([0-9.]+) (.*)$", c)
+        c2 = (m.group(1) + ("7.5 " if rng.random() < 0.5 else "") + m.group(3)) if m else " " * _ind(c) + "2.5 " + c.strip()
+        return kind, repl(k, c2)
+    if kind == "dedent-last":
+        k = sig[-1]
+        if _ind(lines[k]) != 4:
+            return None
+        return kind, repl(k, lines[k][4:])
+    if kind == "indent-next":
+        k = (body[-1] if body else h) + 1
+        if k >= len(lines) or not lines[k].strip() or lines[k].startswith(" ") or lines[k].startswith("Macro"):
+            return None
+        return kind, repl(k, "    " + lines[k])
+    if kind == "swap":
+        pairs = [(a, b) for a, b in zip(flat, flat[1:]) if b == a + 1 and lines[a] != lines[b]]
+        if not pairs:
+            return None
+        a, b = rng.choice(pairs)
+        out = list(idl)
+        out[a], out[b] = (idl[a][0], lines[b]), (idl[b][0], lines[a])
+        return kind, out
+    if kind == "delete-line":
+        k = rng.choice(flat or [sig[-1]])
+        return kind, [x for j, x in enumerate(idl) if j != k]
+    if kind == "insert-line":
+        pos = rng.choice([h + 1, (body[-1] if body else h) + 1] + [k + 1 for k in flat[:2]])
+        return kind, idl[:pos] + [("id_new", "    Mark: inserted")] + idl[pos:]
+    if kind == "remove-macro":
+        return kind, [x for j, x in enumerate(idl) if j != h and j not in body]
+    if kind == "rename-header":
+        return kind, repl(h, lines[h].replace(f"Macro: {name}", f"Macro: {name}2"))
+    if kind == "header-to-block":
+        return kind, repl(h, lines[h].replace("Macro:", "Block:"))
+    return None
 
 
 def oracle_edit(case: dict) -> Failure | None:
-    """Edit / removal of a started macro is rejected with MethodEditError and leaves the run untouched."""
+    """A macro that has already started may not be edited or removed.  'Started' is judged from the Mark
+    trace (a Mark of the macro's body has been set), not from the implementation's counters; the edit must
+    be refused (MethodEditError) and the method must go on as written (same Mark trace as without the attempt)."""
     from harness.engine_run import EngineRun
     from harness.macro_gen import pcode_of
     pcode = pcode_of(case["items"])
-    n_ticks, t_edit, variant = case["ticks"], case["t"], case["variant"]
-    name, new_lines = _edit_variants(pcode, "A")[variant]
+    name, n_ticks, t_edit = case["macro"], case["ticks"], case.get("t", 0)
+    kind, new_lines = case["edit_kind"], [tuple(x) for x in case["edit"]]
+    lines = pcode.split("\n")
+    _, body = macro_region(lines, name)
+    body_marks = {lines[k].strip().split("Mark: ")[1].split(" ")[0] for k in body if "Mark: " in lines[k]}
     ref = EngineRun(pcode)
     try:
-        ref_obs = [_obs(ref.tick()) for _ in range(n_ticks)]
+        ref_marks = []
+        for _ in range(n_ticks):
+            ref_marks.append(_marks(ref.tick()))
     finally:
         ref.close()
+    if "t_frac" in case:
+        cand = [t for t in range(1, n_ticks) if set(ref_marks[t - 1]) & body_marks]
+        if not cand:
+            return None
+        t_edit = cand[int(case["t_frac"] * len(cand))]
+    if t_edit >= n_ticks or t_edit < 1 or not (set(ref_marks[t_edit - 1]) & body_marks):
+        return None                                       # the macro has not visibly started: nothing is demanded
     run = EngineRun(pcode)
     try:
-        started = False
+        snap = None
         for t in range(n_ticks):
             if t == t_edit:
-                import openpectus.lang.model.ast as p
-                macro = next(n for n in run.program_nodes() if isinstance(n, p.MacroNode) and n.name == "A")
-                started = macro.run_started_count > 0
-                if not started:
-                    return None                                   # nothing is demanded before the macro started
                 if case.get("prior_edit"):
-                    lines = [(f"id_{k + 1}", c) for k, c in enumerate(pcode.split("\n"))]
-                    r0 = run.edit(_method(lines + [("id_tail", "Mark: tail")]))
-                    if r0 != "ok":
+                    idl = [(f"id_{k + 1}", c) for k, c in enumerate(lines)]
+                    if run.edit(_method(idl + [("id_tail", "Mark: tail")])) != "ok":
                         return None
+                    seen = False
                     for _ in range(case["gap"]):
-                        run.tick()
-                    macro = next(n for n in run.engine.interpreter._program.get_all_nodes()
-                                 if isinstance(n, p.MacroNode) and n.name == "A")
-                    if macro.run_started_count == 0:
+                        seen = seen or bool(set(_marks(run.tick())[len(ref_marks[t_edit - 1]):]) & body_marks)
+                    if not seen:
                         return None
-                    name2, new2 = _edit_variants(pcode + "\nMark: tail", "A")[variant]
-                    r = run.edit(_method([(i if i != f"id_{len(lines) + 1}" else "id_tail", c) for i, c in new2]))
+                    r = run.edit(_method(new_lines + [("id_tail", "Mark: tail")]))
                     if r != "err:MethodEditError":
                         return Failure("started-macro-edited-after-accepted-edit", case,
-                                       f"after an accepted live edit, edit '{name2}' of started macro A answered {r}")
+                                       f"after an accepted live edit, edit '{kind}' of started macro {name} answered {r}")
                     return None
                 r = run.edit(_method(new_lines))
                 if r != "err:MethodEditError":
-                    return Failure(f"started-macro-edit-accepted:{name}", case,
-                                   f"edit '{name}' of macro A (run_started_count={macro.run_started_count}) at tick "
-                                   f"{t} answered {r}, expected MethodEditError")
-            o = _obs(run.tick())
-            if o != ref_obs[t]:
-                return Failure(f"rejected-macro-edit-disturbs-run:{name}", case,
-                               f"after the rejected edit '{name}' at tick {t_edit} the run differs from the unedited "
-                               f"run at tick {t}: {o[:3]} vs {ref_obs[t][:3]}")
+                    return Failure(f"started-macro-edit-accepted:{kind}", case,
+                                   f"edit '{kind}' of macro {name} at tick {t} (its Marks "
+                                   f"{sorted(set(ref_marks[t - 1]) & body_marks)} had been set: the macro has started) "
+                                   f"answered {r}, expected MethodEditError")
+            snap = run.tick()
+        if _marks(snap) != ref_marks[-1]:
+            return Failure(f"rejected-macro-edit-changes-the-run:{kind}", case,
+                           f"after the rejected edit the Mark trace is {_marks(snap)}, without the attempt {ref_marks[-1]}")
+        return None
+    finally:
+        run.close()
+
+
+def gen_overlap(rng) -> list:
+    """Macros with straight-line bodies (no nested calls) called from the main flow AND from Watch bodies whose
+    conditions become true at random ticks: calls of one macro can overlap."""
+    mark_no = [0]
+
+    def mk(p="m"):
+        mark_no[0] += 1
+        return ("mark", f"{p}{mark_no[0]}")
+    names = ["A"] if rng.random() < 0.6 else ["A", "B"]
+    items = []
+    for nm in names:
+        b = [mk(nm.lower())]
+        for _ in range(rng.randrange(1, 3)):
+            b.append(rng.choice([("wait", "1s"), ("wait", "0.5s"), ("cmd", "CmdA"), mk(nm.lower())]))
+        b.append(("wait", rng.choice(["0.5s", "1s"])))
+        b.append(mk(nm.lower()))
+        items.append(("macro", nm, b))
+    for k in range(rng.randrange(1, 3)):
+        items.append(("watch", f"T{k} > 0", [("call", rng.choice(names)), mk("w")]))
+    items.append(mk("s"))
+    for _ in range(rng.randrange(1, 3)):
+        items.append(("call", rng.choice(names)))
+        items.append(rng.choice([("wait", "0.5s"), mk("s")]))
+    items.append(mk("e"))
+    return items
+
+
+def oracle_overlap(case: dict) -> Failure | None:
+    """Once per call, also for calls that overlap: every Call macro line that ran and completed accounts for
+    one run of the body — each Mark of the body of X is set as often as calls of X completed."""
+    from harness.engine_run import EngineRun
+    from harness.macro_gen import pcode_of
+    items = case["items"]
+    run = EngineRun(pcode_of(items))
+    try:
+        snap = None
+        for t in range(case["ticks"]):
+            for name, v in case["plan"].get(str(t), []):
+                run.set_tag(name, v)
+            snap = run.tick()
+            if snap["tags"].get("Method Status") == "Error":
+                return None
+        got = _marks(snap)
+        for it in items:
+            if it[0] != "macro":
+                continue
+            calls = [n for n in snap["nodes"] if n["cls"] == "CallMacroNode" and n["arg"] == it[1]]
+            if any(n["started"] and not n["completed"] for n in calls):
+                return None                               # a call is still running: budget too small, no verdict
+            done = sum(1 for n in calls if n["completed"] and not n["failed"])
+            for b in it[2]:
+                if b[0] == "mark" and got.count(b[1]) < done:
+                    return Failure("macro-body-shared-by-overlapping-calls", case,
+                                   f"{done} calls of macro {it[1]} ran and completed but Mark {b[1]} of its body was set "
+                                   f"{got.count(b[1])} time(s); Mark trace {got}")
+                if b[0] == "mark" and got.count(b[1]) > done:
+                    return Failure("macro-body-ran-more-often-than-called", case,
+                                   f"{done} completed calls of {it[1]}, Mark {b[1]} set {got.count(b[1])} times; trace {got}")
         return None
     finally:
         run.close()
@@ -350,6 +532,8 @@ def oracle(case: dict) -> Failure | None:
         return oracle_recursive(case)
     if k == "edit":
         return oracle_edit(case)
+    if k == "overlap":
+        return oracle_overlap(case)
     raise ValueError(k)
 
 
@@ -367,13 +551,32 @@ def gen_oracle_cases(ctx: Check, n_expand: int, n_rec: int, n_edit: int) -> list
         items, shape = gen_recursive(rng, SHAPES[i % len(SHAPES)])
         ctx.count("oracle:recursive:" + shape)
         cases.append({"kind": "recursive", "items": items, "shape": shape, "ticks": 70})
-    for _ in range(n_edit):
-        k = rng.randrange(len(EDIT_ITEMS))
-        cases.append({"kind": "edit", "items": EDIT_ITEMS[k], "ticks": 60, "t": rng.randrange(4, 45),
-                      "variant": rng.randrange(6)})
-        ctx.count("oracle:edit")
+    from harness.macro_gen import pcode_of
+    made = 0
+    while made < n_edit:
+        items = gen_edit_method(rng)
+        name = rng.choice([it[1] for it in items if it[0] == "macro"])
+        e = gen_macro_edit(rng, pcode_of(items), name)
+        if e is None:
+            continue
+        made += 1
+        ctx.count("oracle:edit:" + e[0])
+        cases.append({"kind": "edit", "items": items, "macro": name, "ticks": min(_budget(items) + 40, 320),
+                      "t_frac": rng.random() ** 2, "edit_kind": e[0], "edit": [list(x) for x in e[1]]})
+    for _ in range(max(4, n_edit // 3)):
+        items = gen_overlap(rng)
+        ticks = min(_budget(items) + 120, 400)
+        plan: dict[str, list] = {}
+        for k in range(2):
+            plan.setdefault(str(rng.randrange(2, max(3, ticks // 3))), []).append((f"T{k}", 1))
+        ctx.count("oracle:overlap")
+        cases.append({"kind": "overlap", "items": items, "ticks": ticks, "plan": plan})
     # the recorded hole: a second live edit is not validated against the running program
-    cases.append({"kind": "edit", "items": EDIT_ITEMS[0], "ticks": 60, "t": 9, "variant": 0, "prior_edit": True, "gap": 9})
+    pc0 = pcode_of(EDIT0)
+    idl = [(f"id_{k + 1}", c) for k, c in enumerate(pc0.split("\n"))]
+    cases.append({"kind": "edit", "items": EDIT0, "macro": "A", "ticks": 60, "t": 12, "edit_kind": "text",
+                  "edit": [[i, c + "x"] if c.strip() == "Mark: a2" else [i, c] for i, c in idl],
+                  "prior_edit": True, "gap": 14})
     return cases
 
 
@@ -395,7 +598,7 @@ def run(ctx: Check) -> int:
                 "the answer is a non-empty chain. m3 stream: macro-heavy methods (recursive shapes, generated acyclic "
                 "definitions/redefinitions/calls-before-definition + grammar-generated methods with macros, 12% "
                 "malformed) x schedules of 15-50 ticks with requests. Oracle: acyclic macro methods (Mark trace vs inline "
-                "expansion), 16 shapes of recursion (self-call first / after another call / nested in or AFTER a Watch, Alarm, Block / via a second macro / foreign cycle), 6 kinds of edit of a started macro at random ticks.")
+                "expansion), 16 shapes of recursion (self-call first / after another call / nested in or AFTER a Watch, Alarm, Block / via a second macro / foreign cycle), generated edits of every field of a started macro (text, threshold, indentation, order, insert/delete, header, nested lines; started judged from the Mark trace), methods with calls from Watch bodies that overlap main-flow calls.")
     # (1) function level
     fn_cases = gen_fn_cases(ctx)
     out, mout = ctx.correspond("macro-check-fn", "MacroCheck", fn_cases, lambda c: _fn_both(c)[0],
@@ -429,9 +632,9 @@ def run(ctx: Check) -> int:
     # (3) oracle on the real engine
     corpus = []
     for c in load_corpus("C41"):
-        if c.get("kind") in ("expand", "recursive", "edit"):
+        if c.get("kind") in ("expand", "recursive", "edit", "overlap"):
             corpus.append(dict(c, items=[_tup(x) for x in c["items"]]))
-    cases = corpus + gen_oracle_cases(ctx, ctx.n(60, 6000), ctx.n(32, 640), ctx.n(24, 1500))
+    cases = corpus + gen_oracle_cases(ctx, ctx.n(60, 6000), ctx.n(32, 640), ctx.n(150, 3000))
     ctx.monitor(cases, oracle, impl_timeout=120)
     tm["oracle"] = round(time.time() - t0 - sum(tm.values()), 1)
     ctx.assumptions = ["programs are the trees the real parser builds", "UOD commands CmdA/CmdB of the harness UOD",
@@ -442,7 +645,7 @@ def run(ctx: Check) -> int:
 
 def replay(obj) -> int:
     c = obj.get("case", {})
-    if isinstance(c, dict) and c.get("kind") in ("expand", "recursive", "edit"):
+    if isinstance(c, dict) and c.get("kind") in ("expand", "recursive", "edit", "overlap"):
         from harness.macro_gen import pcode_of
         c["items"] = [_tup(x) for x in c["items"]]
         print(pcode_of(c["items"]))
